@@ -48,7 +48,7 @@ Record finput := {
 
 (* what each exercised entry point is asked *)
 Definition foa_policy (fail : bool) : policy :=
-  Some [("default", Some {| s_ar := None; s_fail := Some fail; s_ecs := [] |})].
+  Some [("default", Some {| s_ar := None; s_fail := Some fail; s_ecs := []; s_bare := false |})].
 
 Definition of_md (x : input) (req opt : list reqattr) : finput :=
   {| f_ident := i_ident x; f_pol := i_pol x; f_sp := i_sp x;
@@ -75,8 +75,16 @@ Definition sec_named (p : policy) (k : option string) : option section :=
   | _, _ => None
   end.
 
+(* "default" and "" are two spellings of the default section: "default" answers unless it is an empty
+   section (configures nothing at all) and a "" section exists, which then answers *)
+Definition default_section (p : policy) : option section :=
+  match sec_named p (Some "default") with
+  | Some s => if s_bare s then (match sec_named p (Some "") with Some s' => Some s' | None => Some s end) else Some s
+  | None => sec_named p (Some "")
+  end.
+
 Definition the_section (x : finput) : option section :=
-  first_some (map (sec_named (f_pol x)) [Some (f_sp x); f_ra x; Some "default"; Some ""]).
+  first_some [sec_named (f_pol x) (Some (f_sp x)); sec_named (f_pol x) (f_ra x); default_section (f_pol x)].
 
 Definition the_ar (x : finput) : option restr :=
   match the_section x with Some s => s_ar s | None => None end.
